@@ -144,6 +144,30 @@ let run (toks : string list) : string =
       let l f xs = if xs = [] then "-" else String.concat "," (List.map f xs) in
       Printf.sprintf "P=%s E=%s T=%s G=%d A=%d F=%d" (l part m.M.m_parts) (l file m.M.m_embeds) (l file m.M.m_attach)
         (List.length m.M.m_gen) (List.length m.M.m_addr) (match m.M.m_from with None -> 0 | Some _ -> 1)
+  | ["setters"; wenc; ops] ->
+      (* setter calls (and Reset) applied one by one to a new message; the observable is the stored generic
+         header map: sorted "key=values" items, keys without values left out *)
+      let st = ref (M.new_state [] (n_of_int (if wenc = "b" then 98 else 113)) (enc_of "quoted-printable")) in
+      List.iter (fun op ->
+        if String.length op > 0 then begin
+          let tag = op.[0] and body = String.sub op 1 (String.length op - 1) in
+          let c = match tag with
+            | 'g' -> let (k, v) = split2 '=' body in M.CS (M.SGen (bytes_of_hex k, byteslist_of v))
+            | 's' -> M.CS (M.SSubject (bytes_of_hex body))
+            | 'o' -> M.CS (M.SOrganization (bytes_of_hex body))
+            | 'u' -> M.CS (M.SUserAgent (bytes_of_hex body))
+            | 'm' -> M.CS (M.SMessageID (bytes_of_hex body))
+            | 'b' -> M.CS M.SBulk
+            | 'i' -> M.CS (M.SImportance (match body with
+                       | "low" -> M.ImpLow | "high" -> M.ImpHigh | "nonurgent" -> M.ImpNonUrgent
+                       | "urgent" -> M.ImpUrgent | "normal" -> M.ImpNormal | _ -> failwith "bad importance"))
+            | 'r' -> M.CB M.BReset
+            | _ -> failwith "bad setter op" in
+          st := M.apply_cop !st c
+        end) (split_on '/' ops);
+      let items = List.filter_map (fun (k, vs) ->
+        if vs = [] then None else Some (hex_of_bytes k ^ "=" ^ String.concat "," (List.map hex_of_bytes vs))) (!st).M.b_msg.M.m_gen in
+      if items = [] then "-" else String.concat ";" (List.sort compare items)
   | ["wordenc"; _; s; e] -> hex_of_bytes (M.word_encode (n_of_int (if e = "b" then 98 else 113)) (bytes_of_hex s))
   | ["b64"; chunks] | ["b64f"; chunks] ->
       (match M.b64_body (List.concat (byteslist_of chunks)) with
